@@ -555,6 +555,11 @@ impl Group for C06Node {
             split(&format!("init 2|keysend 0 100000000 {t}|hval 0 new 0:100000:500 - p1|cpsign 1 new - 0:100000:500 p1|revoke 0|cprevoke 1|cpsign 1 new - 0:50000:500 p1|revoke 0|hval 0 new 0:50222:500 - p1|revoke 0|restart|cprevoke 1|cpsign 1 new - 0:50001:500 p1|cpsign 1 new - 0:50000:500,0:600:500 p1")),
             // diverging INCOMING views for an approved hash: only the smaller one (min of the views) may back outgoing value
             split(&format!("init 2|keysend 0 100000000 {t}|hval 0 new - 0:600:600|revoke 0|cpsign 0 new 0:100000:600 0:200000:500|cpsign 0 new 0:100000:600 0:100822:500|cpsign 0 new 0:100000:600 0:100823:500 p1|hval 1 new - 0:100000:600 p1|revoke 1|cpsign 1 new 0:600:600 0:100000:500")),
+            // a preimage for a routed (uninvoiced) payment is persisted with the next node-state write and survives a restart
+            split(&format!("init 2|hval 0 new - 0:2000:600|revoke 0|cpsign 0 new 0:2000:600 -|fulfill 0 0|keysend 1 1000 {t}|restart|cpsign 1 new - 0:2000:500|heartbeat {}|restart", t + 5)),
+            // routed payment whose incoming part is gone (issue-331 tolerance): the entry must survive the heartbeat while
+            // value is still outgoing, and a restart; once nothing is in flight the heartbeat drops it and the hash is unseen again
+            split(&format!("init 3|hval 0 new - 1:50000:600|revoke 0|cpsign 0 new 1:50000:600 -|cpsign 1 new - 1:50000:500|cprevoke 0|cpsign 0 new - -|heartbeat {}|cpsign 2 new - 1:600:500|restart|heartbeat {}|cprevoke 2|cpsign 2 new - 1:600:500,1:700:500|cprevoke 1|cpsign 1 new - -|cprevoke 2|cpsign 2 new - -|hval 0 new - -|revoke 0|heartbeat {}|cprevoke 2|cpsign 2 new - 1:600:500", t + 1, t + 2, t + 3)),
             // u64 extreme approval: a + max_routing_fee overflows
             split(&format!("init 2|keysend 0 18446744073709551615 {t}|cpsign 0 new - 0:2000:500|cpsign 1 new - -")),
         ]
@@ -617,6 +622,31 @@ impl Group for C06Node {
             ops.push(format!("revoke {}", a));
             sims[a].cp_out.push((h, va, 500));
             ops.push(sims[a].cpsign(a, "new"));
+        }
+        if rng.chance(1, 8) {
+            // a routed payment A -> B whose incoming part is removed first (tolerated), a heartbeat, then more outgoing value
+            let h = rng.below(NHASH as u64) as usize;
+            let (a, b) = (0usize, 1usize);
+            let v = *rng.pick(&[2_000u64, 50_000]);
+            sims[a].h_inc.push((h, v, 600));
+            ops.push(sims[a].hval(a, "new"));
+            ops.push(format!("revoke {}", a));
+            sims[a].cp_inc.push((h, v, 600));
+            ops.push(sims[a].cpsign(a, "new"));
+            sims[b].cp_out.push((h, v, 500));
+            ops.push(sims[b].cpsign(b, "new"));
+            sims[a].cp_inc.clear();
+            ops.push(format!("cprevoke {}", a));
+            ops.push(sims[a].cpsign(a, "new"));
+            now += 1;
+            ops.push(format!("heartbeat {}", now));
+            if rng.chance(1, 2) {
+                ops.push("restart".into());
+            }
+            let c2 = nch - 1;
+            sims[c2].cp_out.push((h, 600, 500));
+            ops.push(format!("cprevoke {}", c2));
+            ops.push(sims[c2].cpsign(c2, "new"));
         }
         if rng.chance(1, 6) {
             // an approved hash whose incoming HTLC differs between the holder and the counterparty view, then outgoing
